@@ -302,8 +302,8 @@ func legacyJobs(lr *legacyReplica, r *hx.Rand, all bool, add func(Mut, func(*res
 				continue
 			}
 			n := int(st.Size())
-			offs := map[int]bool{0: true, 1: true, 4: true, 7: true, n / 2: true, n - 1: true, n - 4: true}
-			k := 4
+			offs := map[int]bool{0: true, 4: true, 7: true, n / 2: true, n - 1: true}
+			k := 2
 			if all {
 				k = 40
 			}
